@@ -141,6 +141,9 @@ class Parser:
         if define:
             toks = self.parser_work(define)
             main = utils.filter_set_toks(toks, 0, defs.LanguageToken)
+            # text of the definitions is dropped: also detached pieces
+            # like footnotes (their positions do not refer to the main text)
+            del self.extracted[:]
         main += self.parser_work(latex)
 
         if extract:
